@@ -225,8 +225,9 @@ class Fn:
     of Terms carrying their internal index.
     """
 
-    def __init__(self, name, params, defaults=None, n_out=1, out_shape=None, tag="", none_mod=0):
+    def __init__(self, name, params, defaults=None, n_out=1, out_shape=None, tag="", none_mod=0, seq_out=False):
         self.none_mod = none_mod  # >0: return None (a legitimate value) for about one call in none_mod
+        self.seq_out = seq_out  # the single result is itself a sequence (a 2-tuple of terms), not two outputs
         self.name = name
         self.params = tuple(params)
         self.sig_defaults = dict(defaults or {})
@@ -248,7 +249,8 @@ class Fn:
         self.__signature__ = inspect.Signature(ps)
 
     def __reduce__(self):
-        return (Fn, (self.name, self.params, self.sig_defaults, self.n_out, self.out_shape, self.tag, self.none_mod))
+        return (Fn, (self.name, self.params, self.sig_defaults, self.n_out, self.out_shape, self.tag, self.none_mod,
+                     self.seq_out))
 
     def _one(self, fname, args):
         if self.out_shape is None:
@@ -264,6 +266,8 @@ class Fn:
                 and zlib.crc32(repr((base, args)).encode()) % self.none_mod == 0:
             return None
         if self.n_out == 1:
+            if self.seq_out and self.out_shape is None:
+                return (Term(base, args, "a"), Term(base, args, "b"))
             return self._one(base, args)
         return tuple(self._one(f"{base}#{k}", args) for k in range(self.n_out))
 
